@@ -134,8 +134,8 @@ Proof.
   all: try (match goal with H : Forall (fun c : con => ~ has_select c -> Bq (chain c) c) ?cs |- Bq (chain ?C) _ =>
               assert (HF : Forall (Bq (chain C)) cs) by
                 (rewrite Forall_forall in H |- *; intros c0 Hc0; apply (Bq_mono (chain c0));
-                 [intros t Ht; apply (ch_sub C c0); [cbn [subcons]; exact Hc0|exact Ht]
-                 |apply (H c0 Hc0); intros Hh; apply Hn; apply (hs_sub C c0); [cbn [allsub subcons]; exact Hc0|exact Hh]]);
+                 [intros t Ht; apply (ch_sub C c0); [first [cbn [subcons]; exact Hc0|apply in_subcons_focused; exact Hc0]|exact Ht]
+                 |apply (H c0 Hc0); intros Hh; apply Hn; apply (hs_sub C c0); [first [cbn [allsub subcons]; exact Hc0|cbn [allsub]; apply in_subcons_focused; exact Hc0]|exact Hh]]);
               clear H; rename HF into H end).
   all: try (match goal with H : Forall (fun vc => ~ has_select (snd vc) -> Bq (chain (snd vc)) (snd vc)) ?cs |- Bq (chain ?C) _ =>
               assert (HF : Forall (fun vc => Bq (chain C) (snd vc)) cs) by
@@ -197,6 +197,10 @@ Proof.
     try (destruct Hin as [<-|[]]; exact IH);
     try (apply existsb_exists; exists c'; split; assumption);
     try reflexivity.
+  - (* FocusedSeq *)
+    assert (G : In c' cs -> existsb selb cs = true) by (intros Hc0; apply existsb_exists; exists c'; split; assumption).
+    repeat match type of Hin with In _ (match ?x with _ => _ end) => destruct x end; try (apply G; exact Hin).
+    destruct Hin as [<-|[<-|Hin]]; [| |apply G; exact Hin]; cbn [existsb selb]; rewrite IH; rewrite ?orb_true_r; reflexivity.
   - (* IfThenElse *) apply orb_true_iff. destruct Hin as [<-|[<-|[]]]; auto.
   - (* Switch *) apply orb_true_iff. destruct Hin as [<-|Hin]; [left; exact IH|right].
     apply in_map_iff in Hin as (vc & <- & Hvc). apply existsb_exists. exists vc. split; assumption.
